@@ -17,9 +17,9 @@ from rng import Rng
 ANY = R.ANY
 TABM = 65521
 GUARD = 16
-POOLSZ = 16384
+POOLSZ = 4096
 TYPE_SLOT0 = 10
-SB_HEAP, RB_HEAP, POOL0, NPOOLS, SB_PSM, RB_PSM, PACKB = 0, 1, 2, 16, 18, 19, 20
+SB_HEAP, RB_HEAP, POOL0, NPOOLS, SB_PSM, RB_PSM, PACKB = 0, 1, 2, 8, 18, 19, 20
 
 
 def sg_root():
@@ -113,7 +113,7 @@ def gen_platform(rg, np_):
     hostmap = [i % nh for i in range(np_)]
     if rg.chance(0.4):
         rg.shuffle(hostmap)
-    lat = rg.choice([1e-6, 5e-6, 2e-5, 5e-5, 2e-4, 1e-3])
+    lat = rg.choice([1e-6, 5e-6, 2e-5, 5e-5, 2e-4])
     bw = rg.choice([10 ** 6, 12500000, 125000000, 1250000000])
     if rg.chance(0.6):
         plat = dict(kind='cluster', nh=nh, speed=rg.choice([1e8, 1e9, 1e10]), bw=bw, lat=lat)
@@ -126,7 +126,7 @@ def gen_platform(rg, np_):
     else:
         plat = dict(kind='star', nh=nh, speeds=[rg.choice([1e8, 1e9, 1e10]) for _ in range(nh)],
                     bws=[bw * rg.choice([1, 2, 10]) for _ in range(nh)],
-                    lats=[lat * rg.choice([0.25, 1, 1, 3, 20]) for _ in range(nh)],
+                    lats=[lat * rg.choice([0.25, 1, 1, 3, 8]) for _ in range(nh)],
                     lo_bw=498000000, lo_lat=rg.choice([1e-7, 4e-6]))
     return plat, hostmap
 
@@ -139,6 +139,8 @@ _RUN_SEQ = [0]
 
 def plan_text(built):
     out = ['np %d' % built.np]
+    if built.plan.get('gvars'):
+        out.append('gvars 1')
     for r in range(built.np):
         out.append('rank %d' % r)
         for name, args, _ in built.ops[r]:
@@ -151,15 +153,15 @@ def command(plan, d):
     sg = sg_root()
     cfg = plan['cfg']
     cmd = [sg + '/lib/simgrid/smpimain', mpisim_bin(),
-           '--cfg=smpi/np:%d' % plan['np'], '--cfg=smpi/hostfile:%s/hf' % d, '--cfg=precision/timing:1e-9',
-           '--cfg=smpi/tmpdir:%s' % d, '--cfg=smpi/simulate-computation:no',
+           '--cfg=smpi/np:%d' % plan['np'], '--cfg=smpi/hostfile:hf', '--cfg=precision/timing:1e-9',
+           '--cfg=smpi/tmpdir:.', '--cfg=smpi/simulate-computation:no',
            '--log=xbt_cfg.thres:warning', '--log=smpi_config.thres:warning', '--log=smpi_utils.thres:error',
            '--log=no_loc']
     if 'network/model' not in cfg:
         cmd.append('--cfg=network/model:SMPI')
     for k in sorted(cfg):
         cmd.append('--cfg=%s:%s' % (k, cfg[k]))
-    cmd += [d + '/plat.xml', d + '/plan.txt']
+    cmd += ['plat.xml', 'plan.txt']       # relative to the run directory (cwd): identical argv for every run
     return cmd
 
 
@@ -196,7 +198,7 @@ def run_plan(plan, scratch, timeout=None, keep=False):
     return dict(rc=rc, log=out.decode(errors='replace'), err=err, cmd=cmd, built=built)
 
 
-HANG_CPU = 3.0
+HANG_CPU = 10.0
 
 
 def _cpu_seconds(pid):
@@ -206,6 +208,18 @@ def _cpu_seconds(pid):
         return (int(st[11]) + int(st[12])) / float(os.sysconf('SC_CLK_TCK'))
     except (OSError, IndexError, ValueError):
         return None
+
+
+_LIBC = []
+
+
+def _no_aslr():
+    # address-space randomisation off: when the code under test reads memory it does not own (observed with derived
+    # datatypes), what it finds there must not change from run to run, or replays would not be exact
+    import ctypes
+    if not _LIBC:
+        _LIBC.append(ctypes.CDLL(None, use_errno=True))
+    _LIBC[0].personality(0x0040000)
 
 
 def run_watch(cmd, d, timeout, env):
@@ -220,7 +234,8 @@ def run_watch(cmd, d, timeout, env):
     fo = open(d + '/out.log', 'wb')
     fe = open(d + '/err.log', 'wb')
     try:
-        p = subprocess.Popen(cmd, stdin=subprocess.DEVNULL, stdout=fo, stderr=fe, env=e, cwd=d, start_new_session=True)
+        p = subprocess.Popen(cmd, stdin=subprocess.DEVNULL, stdout=fo, stderr=fe, env=e, cwd=d, start_new_session=True,
+                             preexec_fn=_no_aslr)
     except OSError as ex:
         fo.close()
         fe.close()
@@ -320,7 +335,8 @@ def classify_exit(res, np_, per):
         return ('hang', 'simulation livelocked: no rank progressed while simulated time kept advancing (MPI_Probe polling)')
     if 'Deadlock' in err or 'deadlock' in err:
         return ('deadlock', _first_err(err))
-    return ('abort', 'exit status %s: %s' % (res['rc'], _first_err(err)))
+    cls = {-8: 'crash-fpe', -11: 'crash-segv', -7: 'crash-bus'}.get(res['rc'], 'abort')
+    return (cls, 'exit status %s: %s' % (res['rc'], _first_err(err)))
 
 
 def _first_err(err):
@@ -366,14 +382,14 @@ def ref_setup_step(np_, comm, grp, st):
             comm[r][st['new']] = res[r]
             c = st['color'][r]
             out[r] = ('csplit', [st['new'], old, -1 if c == R.UNDEFINED else c, st['key'][r]],
-                      dict(r='comm', exp=res[r], slot=st['new'], old=old))
+                      dict(r='comm', exp=res[r], slot=st['new'], old=old, ins=[('c', old)], out=('c', st['new'])))
     elif op == 'dup':
         for r in range(np_):
             g = comm[r].get(st['old'])
             if g is None:
                 continue
             comm[r][st['new']] = list(g)
-            out[r] = ('cdup', [st['new'], st['old']], dict(r='comm', exp=list(g), slot=st['new'], old=st['old']))
+            out[r] = ('cdup', [st['new'], st['old']], dict(r='comm', exp=list(g), slot=st['new'], old=st['old'], ins=[('c', st['old'])], out=('c', st['new'])))
     elif op == 'create':
         for r in range(np_):
             g = comm[r].get(st['old'])
@@ -385,7 +401,7 @@ def ref_setup_step(np_, comm, grp, st):
                 raise ValueError('create with undefined group')
             res = list(gl) if r in gl else None
             comm[r][st['new']] = res
-            out[r] = ('ccreate', [st['new'], st['old'], gs], dict(r='comm', exp=res, slot=st['new'], old=st['old']))
+            out[r] = ('ccreate', [st['new'], st['old'], gs], dict(r='comm', exp=res, slot=st['new'], old=st['old'], ins=[('c', st['old']), ('g', gs)], out=('c', st['new'])))
     elif op == 'cfree':
         for r in range(np_):
             if comm[r].get(st['c']) is not None:
@@ -400,14 +416,14 @@ def ref_setup_step(np_, comm, grp, st):
                 e = 'ident'
             else:
                 e = {'ident': 'congruent', 'similar': 'similar', 'unequal': 'unequal'}[R.g_compare(a, b)]
-            out[r] = ('ccmp', [st['a'], st['b']], dict(r='cmp', exp=e))
+            out[r] = ('ccmp', [st['a'], st['b']], dict(r='cmp', exp=e, ins=[('c', st['a']), ('c', st['b'])]))
     elif op == 'cgroup':
         for r in range(np_):
             g = comm[r].get(st['c'])
             if g is None:
                 continue
             grp[r][st['g']] = list(g)
-            out[r] = ('cgroup', [st['g'], st['c']], dict(r='group', exp=list(g)))
+            out[r] = ('cgroup', [st['g'], st['c']], dict(r='group', exp=list(g), ins=[('c', st['c'])], out=('g', st['g'])))
     elif op in ('gincl', 'gexcl', 'grincl', 'grexcl'):
         for r in range(np_):
             g = grp[r].get(st['from'])
@@ -422,7 +438,7 @@ def ref_setup_step(np_, comm, grp, st):
             else:
                 res, args = R.g_range_excl(g, st['ranges']), [len(st['ranges'])] + [x for t in st['ranges'] for x in t]
             grp[r][st['g']] = res
-            out[r] = (op, [st['g'], st['from']] + args, dict(r='group', exp=res))
+            out[r] = (op, [st['g'], st['from']] + args, dict(r='group', exp=res, ins=[('g', st['from'])], out=('g', st['g'])))
     elif op in ('gunion', 'ginter', 'gdiff'):
         fn = {'gunion': R.g_union, 'ginter': R.g_intersection, 'gdiff': R.g_difference}[op]
         for r in range(np_):
@@ -432,27 +448,27 @@ def ref_setup_step(np_, comm, grp, st):
                 continue
             res = fn(a, b)
             grp[r][st['g']] = res
-            out[r] = (op, [st['g'], st['a'], st['b']], dict(r='group', exp=res))
+            out[r] = (op, [st['g'], st['a'], st['b']], dict(r='group', exp=res, ins=[('g', st['a']), ('g', st['b'])], out=('g', st['g'])))
     elif op == 'gtrans':
         for r in range(np_):
             a, b = grp[r].get(st['a']), grp[r].get(st['b'])
             if a is None or b is None or any(x >= len(a) for x in st['ranks']):
                 continue
             out[r] = ('gtrans', [st['a'], st['b'], len(st['ranks'])] + list(st['ranks']),
-                      dict(r='gtrans', exp=R.g_translate(a, st['ranks'], b)))
+                      dict(r='gtrans', exp=R.g_translate(a, st['ranks'], b), ins=[('g', st['a']), ('g', st['b'])]))
     elif op == 'gcmp':
         for r in range(np_):
             a = [] if st['a'] == -1 else grp[r].get(st['a'])
             b = [] if st['b'] == -1 else grp[r].get(st['b'])
             if a is None or b is None:
                 continue
-            out[r] = ('gcmp', [st['a'], st['b']], dict(r='cmp', exp=R.g_compare(a, b)))
+            out[r] = ('gcmp', [st['a'], st['b']], dict(r='cmp', exp=R.g_compare(a, b), ins=[('g', st['a']), ('g', st['b'])]))
     elif op == 'ginfo':
         for r in range(np_):
             g = grp[r].get(st['g'])
             if g is None:
                 continue
-            out[r] = ('ginfo', [st['g']], dict(r='ginfo', exp=list(g), rank=(g.index(r) if r in g else R.UNDEFINED)))
+            out[r] = ('ginfo', [st['g']], dict(r='ginfo', exp=list(g), rank=(g.index(r) if r in g else R.UNDEFINED), ins=[('g', st['g'])]))
     elif op == 'gfree':
         for r in range(np_):
             if grp[r].get(st['g']) is not None:
@@ -663,13 +679,15 @@ def build(plan):
             if gv:
                 gk[0] += 1
                 body.append(('gset', [gk[0]], dict(r='gset', k=gk[0])))
+            if gv:
+                meta = dict(meta, gk=gk[0])
             body.append((name, args, meta))
             if gv:
                 body.append(('gchk', [], dict(r='gchk', k=gk[0])))
 
         def think(t):
             if t and t[1] > 0:
-                body.append(('sleep' if t[0] == 0 else 'exec', [int(t[1])], dict(r='think')))
+                body.append(('sleep' if t[0] == 0 else 'exec', [int(t[1])], dict(r='think', gk=gk[0]) if gv else dict(r='think')))
 
         def region(side, kind, L, it):
             """-> (b, start, L, pool index or None)"""
@@ -984,6 +1002,8 @@ def analyze(plan, res):
 
     sends = {}
     recvs = {}
+    badtypes = set()
+    A.badtypes = badtypes
     dumps = {}
     probes = {}
     sigtok = []
@@ -991,6 +1011,7 @@ def analyze(plan, res):
     for rank in range(np_):
         ops = B.ops[rank]
         active = {}     # q -> (side, mid)
+        badobj = set()   # ('g'|'c', slot) whose value in SMPI already differs from MPI: consumers are not blamed
         tainted = set()  # requests that went through a Testall that returned flag=0
         for idx, (name, args, meta) in enumerate(ops):
             L = per[rank].get(idx)
@@ -1018,6 +1039,16 @@ def analyze(plan, res):
                 break
             f = L.f
             role = meta.get('r')
+            if 'G' in f:
+                gi = len(f) - 1 - f[::-1].index('G')
+                if 'gk' not in meta:
+                    f = f[:gi]
+            if 'G' in f and 'gk' in meta:
+                st['gchk_checked'] += 1
+                if not _globals_match(f[gi + 1:], globals_expected(rank, meta['gk'])):
+                    add('global-leak', 'rank %d op %d (%s): globals read immediately after the call returned are %s, last written '
+                        'k=%d expects %s' % (rank, idx, name, f[gi + 1:gi + 9], meta['gk'], globals_expected(rank, meta['gk'])))
+                f = f[:gi]
             if role == 'send':
                 it = B.msgs[meta['m']]
                 sends[it['id']] = dict(id=it['id'], src=it['s'], dst=it['d'], comm=B.comm_at[it['id']], tag=it['tag'],
@@ -1112,9 +1143,20 @@ def analyze(plan, res):
                         (rank, idx, f[:8], meta['k'], globals_expected(rank, meta['k'])))
                 last_k[rank] = meta['k']
             elif role == 'type':
-                _check_type(plan, meta['desc'], f, add, st, rank)
+                _check_type(plan, meta['desc'], f, add, st, rank, badtypes)
             elif role in ('comm', 'group', 'gtrans', 'cmp', 'ginfo'):
-                _check_comm(role, meta, f, add, st, rank, name)
+                if any(x in badobj for x in meta.get('ins', ())):
+                    st['comm_steps_skipped_bad_input'] = st.get('comm_steps_skipped_bad_input', 0) + 1
+                    if meta.get('out'):
+                        badobj.add(meta['out'])
+                else:
+                    nv = len(V)
+                    _check_comm(role, meta, f, add, st, rank, name)
+                    if meta.get('out'):
+                        if len(V) > nv:
+                            badobj.add(meta['out'])
+                        else:
+                            badobj.discard(meta['out'])
             elif role in ('packsize', 'pack', 'unpack', 'pdump', 'udump'):
                 A.__dict__.setdefault('packlines', {}).setdefault((rank, meta['it']), {})[role] = (meta, f)
             elif role == 'rc' or role == 'barrier':
@@ -1125,7 +1167,7 @@ def analyze(plan, res):
             add('global-leak', 'rank %d starts with globals %s instead of the initial values' % (rank, L0.f[1:9]))
     # ---- pack/unpack round trips
     for (rank, itid), d in sorted(getattr(A, 'packlines', {}).items()):
-        _check_pack(plan, B, rank, itid, d, add, st)
+        _check_pack(plan, B, rank, itid, d, add, st, badtypes)
     # ---- attribute received buffers to messages
     st['msgs'] = len(sends)
     by_dst = {}
@@ -1138,7 +1180,7 @@ def analyze(plan, res):
     done_recvs.sort(key=lambda r: (r['rank'], r['seq']))
     for r in done_recvs:
         st['recvs_checked'] += 1
-        _check_recv(plan, B, r, dumps[r['rid']], by_dst.get(r['rank'], []), consumed, add, st, psm, probes, athr, dthr, sends)
+        _check_recv(plan, B, r, dumps[r['rid']], by_dst.get(r['rank'], []), consumed, add, st, psm, probes, athr, dthr, sends, badtypes)
     # ---- matching legality over the whole history
     hs = [dict(id=m['id'], src=m['src'], dst=m['dst'], comm=m['comm'], tag=m['tag'], seq=m['seq']) for m in sends.values()]
     hr = [dict(rid=r['rid'], rank=r['rank'], comm=r['comm'], src=r['src'], tag=r['tag'], seq=r['seq'], got=r['got'])
@@ -1148,6 +1190,20 @@ def analyze(plan, res):
             c = 'cross-comm'
         add(c, m)
     if ex and ex[0] in ('deadlock', 'hang'):
+        got_ids = {r_['got'] for r_ in recvs.values() if r_['got'] is not None}
+        for r_ in sorted(recvs.values(), key=lambda x: (x['rank'], x['seq'])):
+            if r_['got'] is not None or r_['status'] is not None:
+                continue
+            hit = [m for m in sends.values() if m['id'] not in got_ids and m['dst'] == r_['rank'] and m['comm'] == r_['comm']
+                   and R.src_ok(r_['src'], m['src']) and R.tag_ok(r_['tag'], m['tag'])]
+            if hit:
+                m = min(hit, key=lambda x: x['seq'])
+                add('stuck-match', 'the run ends in a %s although receive %s of rank %d (source spec %d, tag spec %d, %d bytes) is '
+                    'posted and the matching message %s (rank %d, tag %d, %d bytes, %s) has been sent on the same communicator: '
+                    'they are never matched' % (ex[0], r_['rid'], r_['rank'], r_['src'], r_['tag'],
+                                                B.ti(r_['it']['rt']).size * r_['it']['rc'], m['id'], m['src'], m['tag'], m['bytes'],
+                                                SEND_NAMES[m['sm']]))
+                break
         for r_ in recvs.values():
             it = r_['it']
             if it.get('trunc') and r_['got'] is None and it['id'] in sends:
@@ -1177,11 +1233,32 @@ def analyze(plan, res):
     return A
 
 
-def _check_type(plan, desc, f, add, st, rank):
+def _children(desc):
+    if desc[0] == 'b':
+        return []
+    if desc[0] == 'struct':
+        return list(desc[3])
+    if desc[0] == 'resized':
+        return [desc[1]]
+    return [desc[-1]]
+
+
+def _check_type(plan, desc, f, add, st, rank, bad):
     if rank != 0:
         return      # SPMD: identical lines on every rank; one check is enough
+    import json
+    key = json.dumps(desc)
+    if any(json.dumps(c) in bad for c in _children(desc)):
+        bad.add(key)        # built on a type whose layout is already wrong: blame the innermost node only
+        st['types_skipped_bad_child'] = st.get('types_skipped_bad_child', 0) + 1
+        return
     st['types_checked'] += 1
     kind = desc[0]
+    add0 = add
+
+    def add(c, m):
+        bad.add(key)
+        add0(c, m)
     if f[0] != 'ok' or f[1] == 'null':
         add('layout-rc:' + kind, 'constructor of %s returned %s' % (desc, f[:2]))
         return
@@ -1260,6 +1337,11 @@ def _check_comm(role, meta, f, add, st, rank, name):
                 (rank, size, rk, got, meta['rank'], meta['exp']))
 
 
+def _uses_bad(plan, trefs, bad):
+    import json
+    return any(not isinstance(t, str) and json.dumps(plan['types'][t]) in bad for t in trefs)
+
+
 def _rebuild(rank, b, lo, n, runs):
     buf = bytearray(pat_canary(rank, b, lo, n))
     for pos, data in runs:
@@ -1292,6 +1374,13 @@ def _expected(plan, B, rank, m, rmeta, rit, psm):
         smask = _shared_mask(slay, soff, Ls)
         if care is None:
             care = bytearray(b'\1' * n)
+    if sti.size * m['sc'] > rti.size * rit['rc']:
+        # truncation: MPI leaves the content of the receive buffer undefined; only bytes outside it are asserted
+        if care is None:
+            care = bytearray(b'\1' * n)
+        for ra, rl in rsegs:
+            p0 = start - lo + ra
+            care[p0:p0 + rl] = bytes(rl)
     # walk both segment lists in lock step
     si = ri = 0
     so = ro = 0
@@ -1339,7 +1428,7 @@ def _first_diff(a, b, care):
     return -1
 
 
-def _check_recv(plan, B, r, dump, cands_all, consumed, add, st, psm, probes, athr, dthr, sends):
+def _check_recv(plan, B, r, dump, cands_all, consumed, add, st, psm, probes, athr, dthr, sends, badtypes=()):
     rmeta, runs = dump
     rank = r['rank']
     rit = r['it']
@@ -1359,11 +1448,28 @@ def _check_recv(plan, B, r, dump, cands_all, consumed, add, st, psm, probes, ath
         if not _differs(actual, exp, care):
             matches.append(m)
 
+    cap0 = B.ti(rit['rt']).size * rit['rc']
+    said_trunc = r['rc'] == 'trunc' or stt['err'] == 'trunc'
+
     def rank_of(m):
+        size_ok = (m['bytes'] > cap0) if said_trunc else (m['bytes'] == stt['bytes'])
         return (0 if (m['src'] == ssrc and m['tag'] == stt['tag'] and m['comm'] == r['comm']) else
                 1 if (m['src'] == ssrc and m['comm'] == r['comm']) else 2 if m['comm'] == r['comm'] else 3,
-                m['seq'])
+                0 if (m['comm'] == r['comm'] and R.src_ok(r['src'], m['src']) and R.tag_ok(r['tag'], m['tag'])) else 1,
+                1 if m['bytes'] > cap0 else 0,      # a truncated delivery explains anything: least preferred
+                0 if size_ok else 1, m['seq'])
     psmk = rmeta['b'] == RB_PSM
+    statusfirst = []
+    if psm:
+        # partially shared buffers: bytes of shared regions carry no information, so the status decides which message
+        # this is and the content check is only about private bytes
+        statusfirst = [m for m in cands if m['comm'] == r['comm'] and m['src'] == ssrc and m['tag'] == stt['tag'] and
+                       (m['bytes'] == stt['bytes'] or m['bytes'] > B.ti(rit['rt']).size * rit['rc'])]
+    if statusfirst and not any(m['id'] == min(statusfirst, key=lambda x: x['seq'])['id'] for m in matches):
+        matches = []
+        cands = statusfirst
+    elif statusfirst:
+        matches = [min(statusfirst, key=lambda x: x['seq'])]
     if matches:
         m = min(matches, key=rank_of)
     else:
@@ -1388,6 +1494,8 @@ def _check_recv(plan, B, r, dump, cands_all, consumed, add, st, psm, probes, ath
             poison = k < len(pat_poison(k + 1)) and actual[i] == pat_poison(k + 1)[k]
         if psmk or mi.get('sbk') == 2:
             cls = 'psm-copy' if inside else 'psm-canary'
+        elif (derived or sderived) and _uses_bad(plan, (mi['st'], rit['rt']), badtypes):
+            cls = 'xfer-badlayout'
         elif derived or sderived:
             if inside:
                 cls = ('xfer-sr' if derived and sderived else
@@ -1483,9 +1591,11 @@ def _check_recv(plan, B, r, dump, cands_all, consumed, add, st, psm, probes, ath
                     break
 
 
-def _check_pack(plan, B, rank, itid, d, add, st):
+def _check_pack(plan, B, rank, itid, d, add, st, bad=()):
     it = [x for x in plan['items'] if x['k'] == 'pack' and x['id'] == itid][0]
     kind = root_kind(plan, it['t'])
+    if _uses_bad(plan, (it['t'],), bad):
+        kind = 'badlayout'
     ti = B.ti(it['t'])
     nbytes = ti.size * it['count']
     if 'packsize' in d:
@@ -1618,12 +1728,12 @@ def gen_think(rg, p=0.45):
 def gen_cfg(rg, prof):
     a, d = gen_thresholds(rg)
     cfg = {'smpi/async-small-thresh': a, 'smpi/send-is-detached-thresh': d,
-           'smpi/privatization': rg.choice(prof.get('priv', ['dlopen', 'dlopen', 'mmap'])),
+           'smpi/privatization': rg.choice(prof.get('priv', ['dlopen', 'dlopen', 'dlopen', 'mmap'])),
            'smpi/wtime': rg.choice(['0', '0', '0', '1e-8'])}
     if rg.chance(0.3):
-        cfg['smpi/iprobe'] = rg.choice(['1e-6', '1e-5', '1e-4'])
+        cfg['smpi/iprobe'] = rg.choice(['1e-5', '3e-5', '1e-4'])
     if rg.chance(0.3):
-        cfg['smpi/test'] = rg.choice(['0', '1e-6', '1e-4'])
+        cfg['smpi/test'] = rg.choice(['0', '1e-5', '1e-4'])
     if rg.chance(0.25):
         cfg['smpi/os'] = rg.choice(['0:1e-6:1e-9', '0:5e-6:0;1024:2e-5:1e-9'])
         cfg['smpi/or'] = rg.choice(['0:1e-6:1e-9', '0:8e-6:0'])
@@ -1844,6 +1954,7 @@ def gen_plan(seed, tier, prof):
     while len([x for x in items if x['k'] == 'msg']) < nm and usable:
         kind = rg.wchoice([('stream', 60), ('fanin', 14 * prof.get('wild', 0)), ('fanany', 8 * prof.get('wild', 0)),
                            ('ring', 8), ('rsend', 5), ('barrier', 3), ('coll', 4 * prof.get('midcoll', 0)),
+                           ('cross', 25 * prof.get('cross', 0.4)),
                            ('pack', 6 * prof.get('pack', 0))])
         c, g = rg.choice(usable)
         if kind == 'stream':
@@ -1866,6 +1977,38 @@ def gen_plan(seed, tier, prof):
                     m['rc'] = rg.randint(0, m['sc'] - 1)
                     m['rm'] = rg.choice(['recv', 'irecv'])
                 items.append(m)
+        elif kind == 'cross':
+            # the same (sender, receiver, tag) on two different communicators; the receives are posted in the opposite
+            # order of the sends, which is legal only because matching is per communicator
+            pairs = [(c1, g1, c2, g2) for (c1, g1) in usable for (c2, g2) in usable
+                     if (c1, g1) < (c2, g2) and len(set(g1) & set(g2)) >= 2 and (c1 != c2)]
+            if pairs:
+                c1, g1, c2, g2 = rg.choice(pairs)
+                s, d = rg.sample(sorted(set(g1) & set(g2)), 2)
+                tag = rg.choice(tags)
+                ma = new_msg(rg, mid[0], s, d, c1, tag, a, dthr, prof)
+                mb = new_msg(rg, mid[0] + 1, s, d, c2, tag, a, dthr, prof)
+                mid[0] += 2
+                for m in (ma, mb):
+                    payload(m)
+                    m['sm'] = rg.choice([4, 4, 6, 0]) if m is ma else rg.choice([0, 4, 1, 2])
+                    if m['sm'] >= 4:
+                        m['sw'] = rg.choice([1, 2])
+                        m['wks'] = rg.below(5)
+                    else:
+                        m.pop('sw', None)
+                    m['rm'] = 'irecv'
+                    m['rw'] = rg.choice([1, 2])
+                    m['wkr'] = rg.below(5)
+                    m.pop('rtg', None) if rg.chance(0.7) else None
+                ma.pop('hoist', None)
+                mb['hoist'] = 1
+                if ma['sm'] == 0:
+                    ma['sm'] = 4
+                    ma['sw'] = 1
+                    ma['wks'] = 0
+                items.append(ma)
+                items.append(mb)
         elif kind in ('fanin', 'fanany') and len(g) >= 2:
             d = rg.choice(g)
             senders = rg.sample([w for w in g if w != d], rg.randint(1, min(4, len(g) - 1)))
@@ -1953,7 +2096,7 @@ def gen_plan(seed, tier, prof):
         elif kind == 'coll':
             old = rg.choice(sorted(comms))
             if comms[old]:
-                st = add_split(old) if rs.chance(0.5) else add_dup(old)
+                st = add_split(old) if rs.chance(0.5 if not prof.get('gvars') else 0.25) else add_dup(old)
                 items.append(dict(k='coll', step=st))
                 usable = [(c2, g2) for c2 in sorted(comms) for g2 in comms[c2] if len(g2) >= 2]
         elif kind == 'pack' and plan['types']:
@@ -2056,6 +2199,12 @@ def _gen_psm(rg, plan, a, dthr):
             continue
         which = rg.wchoice([('s', 3), ('r', 3), ('sr', 4)])
         size = rg.choice([1, 17, 300, 4096, 5000, 9000]) if rg.chance(0.5) else rg.randint(1, 20000)
+        lim = 20000
+        if 's' in which:
+            lim = min(lim, psm[str(m['s'])]['s']['size'] - 8)
+        if 'r' in which:
+            lim = min(lim, psm[str(m['d'])]['r']['size'] - 8)
+        size = min(size, lim)
         m['st'] = m['rt'] = 'BYTE'
         m['sc'] = size
         m['rc'] = size + rg.choice([0, 0, 0, 7])
@@ -2382,15 +2531,20 @@ def _sig_ok(plan, it):
 # ---------------------------------------------------------------------------------------------------------
 # the check base class
 # ---------------------------------------------------------------------------------------------------------
-ALWAYS = ('abort', 'deadlock', 'log-desync', 'hang')
+ALWAYS = ('abort', 'crash-', 'deadlock', 'log-desync', 'hang')
 
 
 class MpiCheck(dst.Check):
     level = 'exploration'
     prof = {}
     own = ()            # violation class prefixes that belong to this property
-    max_reported = 6
-    shrink_budget = 250
+    probes = ('probe_recv_posted_first', 'probe_send_first_eager', 'probe_rendezvous', 'probe_detached')
+    max_reported = 4
+
+    @property
+    def shrink_budget(self):
+        import sys
+        return 150 if 'thorough' in sys.argv else 40
     real_vs_stub = {
         'SMPI (matching, protocols, datatypes, communicators, shared malloc, privatization)': 'real',
         'SimGrid kernel, network and CPU models, contexts': 'real',
@@ -2403,6 +2557,7 @@ class MpiCheck(dst.Check):
         'wall-clock computation injection is off (smpi/simulate-computation:no) so that a plan is one repeatable execution',
         'SMPI_PARTIAL_SHARED_MALLOC uses a /tmp backing file created and unlinked by SMPI itself (not by the framework)',
         'lines of the log interleave in execution order because the kernel runs one rank at a time (sequential contexts)',
+        'the simulation process runs with address-space randomisation off (personality ADDR_NO_RANDOMIZE) so that even memory-unsafe behaviour of the code under test replays exactly',
     ]
 
     def gen(self, seed, tier):
@@ -2428,10 +2583,17 @@ class MpiCheck(dst.Check):
     def mine(self, cls):
         return cls in ALWAYS or any(cls == o or cls.startswith(o) for o in self.own)
 
+    EXPLAINS_STALL = ('overtake', 'recv-order', 'probe-order', 'stuck-match', 'trunc-deadlock', 'trunc-hang')
+
     def oracle(self, plan, res):
         seen = set()
         out = []
+        classes = [c for c, _ in res['viol']]
+        # a stall explained by a point-to-point ordering failure is reported as that failure (by C28), not as a stall
+        explained = any(c in self.EXPLAINS_STALL for c in classes)
         for c, m in res['viol']:
+            if explained and c in ('deadlock', 'hang'):
+                continue
             if self.mine(c) and c not in seen:
                 seen.add(c)
                 out.append((c, m))
@@ -2442,6 +2604,9 @@ class MpiCheck(dst.Check):
 
     def stats(self, plan, res):
         s = dict(res['stats'])
+        for k in list(s):
+            if k.startswith('probe_') and k not in self.probes:
+                del s[k]
         for c, _ in res['viol']:
             if not self.mine(c):
                 s['foreign_' + c] = s.get('foreign_' + c, 0) + 1
@@ -2450,6 +2615,25 @@ class MpiCheck(dst.Check):
 
     def shrink(self, plan):
         return shrink_candidates(plan)
+
+    def known_matchers(self):
+        def athr(plan):
+            return int(plan['cfg'].get('smpi/async-small-thresh', 0))
+        return {
+            # receives (or probes) look into the 'small' mailbox first and eager sends into the 'large' one first:
+            # with smpi/async-small-thresh > 0 two messages / two receives of one stream can be matched out of order
+            'mailbox_split_order': lambda plan, cls, msg: cls in ('overtake', 'recv-order', 'probe-order', 'stuck-match') and athr(plan) > 0,
+            # a receive smaller than the threshold waits in the small mailbox, the oversized send goes to the large one
+            'trunc_small_recv_first': lambda plan, cls, msg: cls in ('trunc-deadlock', 'trunc-hang') and athr(plan) > 0,
+            # MPI_Testall completes individual requests although it returns flag=0; their status is lost
+            'testall_consumes_requests': lambda plan, cls, msg: cls == 'status-testall',
+            'datatype_bounds': lambda plan, cls, msg: cls.startswith('layout-'),
+            'datatype_transfer': lambda plan, cls, msg: cls.startswith(('xfer', 'pack', 'unpack')),
+            'zero_size_type_division': lambda plan, cls, msg: cls == 'crash-fpe',
+            'group_intersection_order': lambda plan, cls, msg: cls == 'group-order:ginter',
+            'psm_offset_drops_private_blocks': lambda plan, cls, msg: cls == 'psm-copy',
+            'psm_tail_pages_shared': lambda plan, cls, msg: cls == 'psm-canary',
+        }
 
     def describe(self, plan, res):
         B = build(plan)
